@@ -32,7 +32,8 @@ CHECKS = {
         cat="exploration", technique="structural post-condition monitor on every draw + exact binomial frequency monitor over repeated seeded draws",
         text="For 8 weight-vector classes x lengths 1..1e5: returned samples are the indexed input rows, rejection indices strictly increasing, arg-max kept, -inf never "
              "kept, multinomial size = requested / int(ESS); ESS in [1,n] and shift invariant; inclusion/selection frequencies over 4000 (40000 thorough) repetitions "
-             "inside exact binomial bounds with total false-alarm probability < 1e-9.",
+             "inside exact binomial bounds with total false-alarm probability < 1e-9; the samplers' own wrappers (INS draw_posterior_samples on both sample sets, "
+             "FlowSampler.run(posterior_sampling_method=)) are exercised on real runs for every documented method name with explicit and default sizes.",
         note="statistical part decides at a stated false-alarm level and cannot see deviations below its resolution (~6.5 sigma of a binomial count)", ref="DESIGN.md §3 C16"),
     "C18": dict(
         cat="exploration", technique="reference registry model stepped beside config.livepoints + constructor/inverse round-trip monitor, bit-level comparison",
@@ -96,7 +97,7 @@ CHECKS = {
         cat="exploration", technique="round-trip / Jacobian-pairing monitor on the real reparameterisation objects + numeric differentiation of the implemented inverse map",
         text="315 configurations (every registered general and GW reparameterisation name reachable without astropy, option grid, combined and FlowProposal-level "
              "set-ups incl. the 15-parameter GW default set) x point classes (interior, approach to each bound down to 1e-12 of the range, exact bounds, post-update "
-             "clouds) x random boxes of scale 1e-6..1e6: x -> x' -> x'' round trip, non-sampling fields byte-identical, log_J + log_J_inv = 0, spread of (reported - "
+             "clouds and the update->reset state) x random boxes of scale 1e-6..1e6: x -> x' -> x'' round trip, non-sampling fields byte-identical, log_J + log_J_inv = 0, spread of (reported - "
              "numerically differentiated) log-Jacobian <= 1e-6 over the batch (constant offsets reported), prime prior = prior / Jacobian up to a constant with the same "
              "support; elementary maps in longdouble down to 1e-15 of the range.",
         note="finite differences only at points clear of kinks and singular sets (counted per reason); the astropy-only distance converter is not reached", ref="DESIGN.md §3 C07"),
@@ -104,13 +105,13 @@ CHECKS = {
         cat="fault_enumeration", technique="real process death at every enumerated file-system operation boundary / byte prefix (fork per crash point), fresh-process resume under the state-digest monitor",
         text="For 4 (thorough 8) driver runs (both samplers, early checkpoint with no predecessor, late checkpoint with predecessor, keep-old on/off, weights saves) a "
              "recording pass lists the audited operations of the real safe_file_dump / save_weights; one forked child per crash point performs the real operation and dies "
-             "with os._exit before each operation, after the last, and after each of 5 (40) byte prefixes of the serialised sampler / weights; each of the ~70 (~600) "
+             "with os._exit before each operation, right after each operation has returned (e.g. between a rename and the close of a still-open file), after the last, and after each of 5 (40) byte prefixes of the serialised sampler / weights; each of the ~70 (~600) "
              "resulting directories is resumed by a fresh process that must load a checkpoint digest-equal to the previous or the new one, continue sampling under the "
              "C01/C03/C05 monitors, or start afresh when none had completed.",
         note="process death only (no power loss); torch.save is modelled as a sequential writer (validated with strace-injected SIGKILL in the design phase)", ref="DESIGN.md §3 C11"),
     "C12": dict(
         cat="exploration", technique="generic object-graph digest at pickling vs after restore inside the real run path + offline accounting over user-boundary event logs of kill/resume histories",
-        text="24 (thorough 300) seeded histories: a run with a checkpoint schedule (every 1/7/50 iterations, every 0.2 s, on training) is killed by os._exit at the K-th "
+        text="24 (thorough 300) seeded histories: a run with a checkpoint schedule (every 1/7/50 iterations, every 0.2 s, on training with an iteration or time interval short enough for it to write) is killed by os._exit at the K-th "
              "likelihood point, resumed in a fresh process, killed again (1-3, thorough 1-5 kills), then completed; every checkpoint's full state digest (~300 fields) is "
              "compared after restore with a reviewed allow-list; evaluation counts and timings are checked cumulatively against the call log; C01/C03/C05 monitors stay armed.",
         note="flow weights are outside the property's list and only reloaded; fields allowed to differ are listed with reasons in vlib/digest.py and counted in the evidence",
@@ -121,7 +122,8 @@ CHECKS = {
              "before the chosen line at phases covering the first iteration, uninformed sampling, the switch/first training and late flow sampling; the SystemExit code, "
              "conservation of every live/discarded point at resume, count identities (samples / integral state / insertion indices), and the completed run under the "
              "C01/C03/C05 monitors are checked; for INS the iteration-boundary checkpoint's hash must be unchanged by the handler. Real SIGTERM/SIGINT/SIGALRM are delivered "
-             "with os.kill to child processes and the process exit status is compared with the configured code.",
+             "with os.kill to child processes and the process exit status is compared with the configured code. 15 (100) histories with 2-4 interruptions and resumes in a "
+             "row (uninformed phase, across the proposal switch, flow phase, INS iteration heads) check point conservation at every resume.",
         note="line granularity on the main thread (CPython runs Python-level handlers at bytecode boundaries; a signal inside a C call is deferred to the next boundary); "
              "the three interruption states of the non-restartable replace step are listed known findings decided by state predicates", ref="DESIGN.md §3 C13"),
     "C20": dict(
